@@ -4,6 +4,7 @@ package main
 
 import (
 	"fmt"
+	"math"
 	"strings"
 
 	"golang.org/x/tools/go/ssa"
@@ -91,108 +92,301 @@ func ruleC18(c *Ctx) {
 	c.useFn(add)
 	c.useFn(cmp)
 
-	// ---------- AddCodonTable
-	{
-		tb := newTB(add)
-		rt, _, ok := singleReturnTerm(add, 0)
-		if !ok {
-			c.bad("TERM-ADD", "single return", add.Pos(), "AddCodonTable has several returns (unrecognised shape)")
-		} else {
-			st, sp := partialOf(rt, "StartCodons"), partialOf(rt, "StopCodons")
-			c.check(st != nil && sp != nil && st.String() == "field[StartCodons](param[0])" && sp.String() == "field[StopCodons](param[0])", "TERM-ADD", "start/stop from first table", add.Pos(), "StartCodons and StopCodons are the first table's", "start/stop codons are not taken from the first table")
-			aas := partialOf(rt, "AminoAcids")
-			good, why := false, "AminoAcids is not one entry per amino acid of the first table (unrecognised shape)"
-			if aas != nil && aas.Op == "collect" {
-				e := aas.Args[0]
-				lt, cd := partialOf(e, "Letter"), partialOf(e, "Codons")
-				if lt != nil && cd != nil && lt.String() == l0 {
-					sites := topAppendSites(cd)
-					if len(sites) == 1 {
-						ce := sites[0].Elem
-						tr, wt := partialOf(ce, "Triplet"), partialOf(ce, "Weight")
-						pc := pathCond(tb, add.Blocks[0], sites[0].At.Block())
-						eq := "binop[==](" + t0 + ", " + t1 + ")"
-						wantW := "binop[+](" + w0 + ", " + w1 + ")"
-						if tr != nil && wt != nil && tr.String() == t0 && wt.String() == wantW && pc.implies(eq, false) {
-							good = true
-						} else {
-							why = fmt.Sprintf("codon entry is {%s, %s} under %s; want {first.Triplet, first.Weight+second.Weight} under first.Triplet==second.Triplet", short(fmt.Sprint(tr)), short(fmt.Sprint(wt)), short(pc.String()))
+	// WRITERS
+	for _, f := range []*ssa.Function{add, cmp} {
+		var ws []string
+		for _, g := range family(f) {
+			if g == f || len(newFamView(f).args[g]) > 0 {
+				ws = append(ws, argWriters(g)...)
+			}
+		}
+		if len(ws) == 0 {
+			ws = argWriters(f)
+		}
+		c.check(len(ws) == 0, "WRITERS", fname(f)+" does not write its arguments", f.Pos(), "no store through memory reachable from a parameter", "stores into argument memory: "+strings.Join(ws, "; ")+": the caller's table (and, for a default table, the package's shared table) is changed by the call")
+	}
+	checkAddTable(c, add)
+	checkCompromise(c, cmp)
+}
+
+func checkAddTable(c *Ctx, add *ssa.Function) {
+	tb := newDeepTB(add)
+	alts := resultAlts(tb, add, 0)
+	if len(alts) != 1 {
+		c.undecided("TERM-ADD", "single return", add.Pos(), fmt.Sprintf("AddCodonTable has %d returns", len(alts)))
+		return
+	}
+	rt := alts[0].T
+	for _, f := range []string{"StartCodons", "StopCodons"} {
+		got := partialOf(rt, f)
+		if got == nil && rt.isParam(0) {
+			got = parseTerm("field[" + f + "](param[0])")
+		}
+		c.cmpTerm("TERM-ADD", f+" from first table", add.Pos(), got, "field["+f+"](param[0])", f+" is the first table's", "the result's "+f, "field["+f+"](param[1])")
+	}
+	aas := partialOf(rt, "AminoAcids")
+	st, why := unknown, "AminoAcids is not visibly one entry per amino acid of the first table"
+	if aas != nil && aas.Op == "collect" {
+		e := aas.Args[0]
+		lt, cd := partialOf(e, "Letter"), partialOf(e, "Codons")
+		switch {
+		case lt == nil || cd == nil:
+		case lt.String() != l0:
+			st = stateOf(false, vocabOf(l0, l1), lt)
+			if st == broken && !localDiff(lt, l0) {
+				st = unknown
+			}
+			why = "amino-acid letters are " + short(lt.String()) + "; want the first table's"
+		default:
+			sites := topAppendSites(cd)
+			if len(sites) != 1 {
+				why = fmt.Sprintf("%d append sites build the codon list, the model needs 1", len(sites))
+				break
+			}
+			ce := sites[0].Elem
+			tr, wt := partialOf(ce, "Triplet"), partialOf(ce, "Weight")
+			pc := pathCond(tb, add.Blocks[0], sites[0].At.Block())
+			eq := "binop[==](" + t0 + ", " + t1 + ")"
+			wantW := "binop[+](" + w0 + ", " + w1 + ")"
+			vocab := vocabOf(w0, w1, t0, t1)
+			switch {
+			case tr == nil || wt == nil:
+				why = "the codon entry is not a visible Codon literal"
+			case !pc.implies(eq, false):
+				why = "codons are combined under " + short(pc.String())
+				if pc.implies(eq, true) {
+					st, why = broken, "weights are added for codons whose triplets DIFFER"
+					break
+				}
+				// the second table indexed by triplet in a map: M[t1] = w1 for all its codons, then M[t0]
+				if wt != nil && wt.isBin("+") {
+					for k := 0; k < 2; k++ {
+						lk := wt.Args[k]
+						if lk.Op == "extract" && lk.Name == "0" {
+							lk = lk.Args[0]
 						}
-						// no further filter on the second table's entries (e.g. weight > 0)
+						if wt.Args[1-k].String() != w0 || lk.Op != "lookup" || lk.Args[0].Op != "makemap" || lk.Args[1].String() != t0 {
+							continue
+						}
+						filled := false
+						eachInstr(add, func(i ssa.Instruction) {
+							if mu, ok := i.(*ssa.MapUpdate); ok && tb.T(mu.Map).String() == lk.Args[0].String() && tb.T(mu.Key).String() == t1 && tb.T(mu.Value).String() == w1 {
+								if entry := loopBodyEntry(mu.Block()); entry != nil && pathCond(tb, entry, mu.Block()).Op == "true" {
+									filled = true
+								}
+							}
+						})
+						if !filled {
+							continue
+						}
 						for _, a := range pc.atoms() {
-							as := a.Atom.String()
-							if as != eq && !isIterCond(a.Atom) {
-								good = false
-								why = "codons are summed only under an extra condition: " + short(as)
+							at := a.Atom
+							switch {
+							case isIterCond(at):
+							case at.Op == "extract" && at.Name == "1" && at.Args[0].Op == "lookup" && at.Args[0].Args[1].String() == t0 && !a.Neg:
+								st = holds
+							case at.Op == "binop" && strings.Contains(at.String(), "lookup("+lk.Args[0].String()+", "+t0+")") && (at.Args[0].Op == "const" || at.Args[1].Op == "const"):
+								st, why = broken, "a codon is carried into the sum only if its weight in the second table passes "+short(at.String())+": a codon the second organism never uses is dropped from the result together with the first table's weight"
 							}
 						}
-					} else {
-						why = fmt.Sprintf("%d append sites build the codon list, want 1", len(sites))
+					}
+				}
+			case tr.String() != t0 && tr.String() != t1:
+				st = stateOf(false, vocab, tr)
+				why = "the result codon's triplet is " + short(tr.String())
+			case wt.String() != wantW:
+				st = unknown
+				if len(opaqueParts(wt, vocab)) == 0 && localDiff(wt, wantW) {
+					st = broken
+				}
+				why = "the result weight is " + short(wt.String()) + "; want first.Weight + second.Weight"
+			default:
+				st = holds
+				for _, a := range pc.atoms() {
+					as := a.Atom.String()
+					if as != eq && !isIterCond(a.Atom) {
+						st, why = unknown, "codons are summed only under an extra condition: "+short(as)
+						if len(opaqueParts(a.Atom, vocab)) == 0 {
+							st = broken
+						}
 					}
 				}
 			}
-			c.check(good, "TERM-ADD", "weight=first+second under equal triplets", add.Pos(), "for every amino acid and codon of the first table, every second-table codon with the same triplet contributes first.Weight+second.Weight; letters from the first table", why)
 		}
 	}
+	c.judge(st, "TERM-ADD", "weight=first+second under equal triplets", add.Pos(), "for every amino acid and codon of the first table, every second-table codon with the same triplet contributes first.Weight+second.Weight; letters from the first table", why)
+}
 
-	// ---------- CompromiseCodonTable
-	tb := newTB(cmp)
-	// GUARD
-	nGuard := 0
+// sampleRel evaluates a comparison atom whose two sides are named quantities (by rendered term) or constants.
+func sampleAtom(t *Term, env map[string]float64) (bool, bool) {
+	if t.Op != "binop" || len(t.Args) != 2 {
+		return false, false
+	}
+	var val func(x *Term) (float64, bool)
+	val = func(x *Term) (float64, bool) {
+		if v, ok := env[x.String()]; ok {
+			return v, true
+		}
+		if f, ok := x.constFloat(); ok {
+			return f, true
+		}
+		if x.Op == "conv" && len(x.Args) == 1 {
+			v, ok := val(x.Args[0])
+			if ok && strings.HasPrefix(x.Name, "int") {
+				return math.Trunc(v), true
+			}
+			return v, ok
+		}
+		if x.Op == "binop" && len(x.Args) == 2 {
+			a, ok1 := val(x.Args[0])
+			b, ok2 := val(x.Args[1])
+			if ok1 && ok2 {
+				switch x.Name {
+				case "+":
+					return a + b, true
+				case "-":
+					return a - b, true
+				case "*":
+					return a * b, true
+				case "/":
+					if b != 0 {
+						return a / b, true
+					}
+				}
+			}
+		}
+		return 0, false
+	}
+	a, ok1 := val(t.Args[0])
+	b, ok2 := val(t.Args[1])
+	if !ok1 || !ok2 {
+		return false, false
+	}
+	switch t.Name {
+	case "==":
+		return a == b, true
+	case "!=":
+		return a != b, true
+	case "<":
+		return a < b, true
+	case "<=":
+		return a <= b, true
+	}
+	return false, false
+}
+
+func checkCompromise(c *Ctx, cmp *ssa.Function) {
+	view := newFamView(cmp)
+	for _, g := range view.fns {
+		c.useFn(g)
+	}
+	tb := view.tb[cmp]
+	// GUARD: decided on samples of cutOff around the two bounds
+	samples := []float64{-1, -0.0001, -0.00001, 0, 0.0001, 0.5, 0.9999, 1, 1.00001, 1.0001, 2}
+	type retc struct {
+		isErr bool
+		pc    *Cond
+		r     *ssa.Return
+	}
+	var rets []retc
 	for _, r := range returnsOf(cmp) {
 		if len(r.Results) != 2 {
 			continue
 		}
 		e := tb.T(r.Results[1])
-		if !e.isCall("errors.New") && !(e.Op == "call" && strings.HasPrefix(e.Name, "fmt.Errorf")) {
-			continue
+		rets = append(rets, retc{!(e.Op == "const" && strings.HasPrefix(e.Name, "nil:")), pathCond(tb, cmp.Blocks[0], r.Block()), r})
+	}
+	stG, whyG := holds, ""
+	for _, x := range samples {
+		env := map[string]float64{"param[2]": x}
+		wantErr := x < 0 || x > 1
+		errTaken, errKnown := false, true
+		okTaken, okKnown := false, true
+		for _, rc := range rets {
+			v, known := evalCond3(rc.pc, func(t *Term) (bool, bool) { return sampleAtom(t, env) })
+			if rc.isErr {
+				if !known {
+					errKnown = false
+				} else if v {
+					errTaken = true
+				}
+			} else {
+				if !known {
+					okKnown = false
+				} else if v {
+					okTaken = true
+				}
+			}
 		}
-		pc := pathCond(tb, cmp.Blocks[0], r.Block())
 		switch {
-		case pc.String() == "binop[<](param[2], const[0])":
-			nGuard++
-			c.ok("GUARD", "cutOff<0 -> error", r.Pos(), "first test, strict, on the float argument")
-		case pc.String() == "(!(binop[<](param[2], const[0])) && binop[<](const[1], param[2]))" || pc.String() == "(binop[<](const[1], param[2]) && !(binop[<](param[2], const[0])))" || pc.String() == "binop[<](const[1], param[2])":
-			nGuard++
-			c.ok("GUARD", "cutOff>1 -> error", r.Pos(), "second test, strict, on the float argument")
-		default:
-			c.bad("GUARD", "error return", r.Pos(), "error returned under "+short(pc.String())+"; the property wants exactly cutOff<0 and cutOff>1 tested on the argument itself")
+		case wantErr && errKnown && !errTaken:
+			stG, whyG = broken, fmt.Sprintf("cutOff = %v is outside 0..1 but no error return is taken for it", x)
+		case !wantErr && errTaken:
+			stG, whyG = broken, fmt.Sprintf("cutOff = %v is inside 0..1 but an error is returned for it", x)
+		case wantErr && okKnown && okTaken:
+			stG, whyG = broken, fmt.Sprintf("cutOff = %v is outside 0..1 but a table is returned for it", x)
+		case (wantErr && !errKnown && !errTaken) && stG == holds:
+			stG, whyG = unknown, "the error returns depend on conditions the rule cannot evaluate on cutOff alone"
 		}
 	}
-	if nGuard != 2 {
-		c.bad("GUARD", "range checks", cmp.Pos(), fmt.Sprintf("%d of the 2 cut-off range checks found", nGuard))
+	if len(rets) == 0 {
+		stG, whyG = unknown, "no (table, error) returns found"
 	}
-	sr := successReturn(tb, cmp, 1)
-	if sr == nil {
-		c.bad("TERM-COMP", "single success return", cmp.Pos(), "expected exactly one (table, nil) return")
+	c.judge(stG, "GUARD", "error iff cutOff<0 or cutOff>1", cmp.Pos(), "decided for cutOff in {-1, -0.0001, -0.00001, 0, 0.0001, 0.5, 0.9999, 1, 1.00001, 1.0001, 2}: an error return is taken exactly outside [0,1]", whyG)
+	c.Sites += len(samples)
+	var succ *ssa.Return
+	nSucc := 0
+	for _, rc := range rets {
+		if !rc.isErr {
+			succ = rc.r
+			nSucc++
+		}
+	}
+	if nSucc != 1 {
+		c.undecided("TERM-COMP", "single success return", cmp.Pos(), fmt.Sprintf("%d (table, nil) returns", nSucc))
 		return
 	}
-	// the success return must be dominated by both guards' false edges (checked through its path condition)
-	spc := pathCond(tb, cmp.Blocks[0], sr.Block())
-	c.check(spc.implies("binop[<](param[2], const[0])", true) && spc.implies("binop[<](const[1], param[2])", true), "GUARD", "guards dominate the computation", sr.Pos(), "the table is only returned when both range checks failed", "the success return is reachable without passing both range checks: "+short(spc.String()))
-	rt := tb.T(sr.Results[0])
-	st, sp := partialOf(rt, "StartCodons"), partialOf(rt, "StopCodons")
-	c.check(st != nil && sp != nil && st.String() == "field[StartCodons](param[0])" && sp.String() == "field[StopCodons](param[0])", "TERM-COMP", "start/stop from first table", cmp.Pos(), "StartCodons and StopCodons are the first table's", "start/stop codons are not taken from the first table")
+	c.ok("GUARD", "one success return", succ.Pos(), "a single (table, nil) return")
+	rt := tb.T(succ.Results[0])
+	for _, f := range []string{"StartCodons", "StopCodons"} {
+		c.cmpTerm("TERM-COMP", f+" from first table", cmp.Pos(), partialOf(rt, f), "field["+f+"](param[0])", f+" is the first table's", "the result's "+f, "field["+f+"](param[1])")
+	}
 	aas := partialOf(rt, "AminoAcids")
 	if aas == nil || aas.Op != "collect" {
-		c.bad("TERM-COMP", "one entry per amino acid of the first table", cmp.Pos(), "AminoAcids is not collected once per amino acid of the first table (unrecognised shape)")
+		c.undecided("TERM-COMP", "one entry per amino acid of the first table", cmp.Pos(), "AminoAcids is not collected once per amino acid of the first table")
 		return
 	}
 	ae := aas.Args[0]
 	lt, cd := partialOf(ae, "Letter"), partialOf(ae, "Codons")
-	if lt == nil || cd == nil || lt.String() != l0 || cd.Op != "collect" {
-		c.bad("TERM-COMP", "letters from first table, one codon per first-table codon", cmp.Pos(), "amino-acid entries are not {first.Letter, one codon per codon of the first table} (unrecognised shape)")
+	if lt == nil || cd == nil || cd.Op != "collect" {
+		c.undecided("TERM-COMP", "letters from first table, one codon per first-table codon", cmp.Pos(), "amino-acid entries are not visibly {letter, one codon per codon}")
 		return
 	}
+	c.cmpTerm("TERM-COMP", "letters from first table", cmp.Pos(), lt, l0, "amino-acid letters are the first table's", "amino-acid letters", l1)
 	ce := cd.Args[0]
 	tr, wt := partialOf(ce, "Triplet"), partialOf(ce, "Weight")
 	trOK := tr != nil && (tr.String() == "each(collect(each(collect("+t0+"))))" || tr.String() == "each(collect("+t0+"))" || tr.String() == t0)
-	c.check(trOK, "TERM-COMP", "triplets from first table", cmp.Pos(), "result triplets are the first table's, in order", "result triplet is "+short(fmt.Sprint(tr)))
-	if wt == nil || (wt.Op != "zip" && wt.Op != "each") {
-		c.bad("TERM-COMP", "weights", cmp.Pos(), "result weight is not read from the per-codon weight list (unrecognised shape): "+short(fmt.Sprint(wt)))
-		return
+	stTr, whyTr := holds, ""
+	if !trOK {
+		stTr, whyTr = unknown, "result triplet is "+short(fmt.Sprint(tr))
+		if tr != nil && strings.Contains(tr.String(), t1) && !strings.Contains(tr.String(), t0) {
+			stTr, whyTr = broken, "result triplets are the second table's"
+		}
 	}
-	sites := topAppendSites(wt.Args[0])
+	c.judge(stTr, "TERM-COMP", "triplets from first table", cmp.Pos(), "result triplets are the first table's, in order", whyTr)
+	// the weight: either read back from a per-codon list, or computed in place
+	var sites []appSite
+	switch {
+	case wt != nil && (wt.Op == "zip" || wt.Op == "each"):
+		sites = topAppendSites(wt.Args[0])
+	case wt != nil && wt.Op == "phi" && !wt.Cyc:
+		if ph, ok := wt.V.(*ssa.Phi); ok {
+			for k, e := range ph.Edges {
+				pred := ph.Block().Preds[k]
+				sites = append(sites, appSite{Elem: tb.T(e), At: pred.Instrs[len(pred.Instrs)-1]})
+			}
+		}
+	}
 	var zero, avg *appSite
 	for i := range sites {
 		if sites[i].Elem.isConst("0") {
@@ -202,85 +396,167 @@ func ruleC18(c *Ctx) {
 		}
 	}
 	if len(sites) != 2 || zero == nil || avg == nil {
-		c.bad("TERM-COMP", "weight = 0 or mean", cmp.Pos(), fmt.Sprintf("%d weight-producing sites, want exactly {0, mean}", len(sites)))
+		c.undecided("TERM-COMP", "weight = 0 or mean", cmp.Pos(), fmt.Sprintf("%d weight-producing sites; the model needs exactly {0, mean}: %s", len(sites), short(fmt.Sprint(wt))))
 		return
 	}
-	// mean term: conv[int](binop[/](binop[+](conv[float64](S1), conv[float64](S2)), const[2]))
-	a := avg.Elem
-	okAvg := a.Op == "conv" && a.Name == "int" && a.Args[0].isBin("/") && a.Args[0].Args[1].isConst("2") && a.Args[0].Args[0].isBin("+")
+	// mean term: int((float(S1)+float(S2))/2) or (S1+S2)/2
+	a := stripConv(avg.Elem)
+	stM, whyM := unknown, "kept weight is "+short(a.String())
 	var s1, s2 *Term
-	if okAvg {
-		x, y := a.Args[0].Args[0].Args[0], a.Args[0].Args[0].Args[1]
-		if x.Op == "conv" && y.Op == "conv" {
-			s1, s2 = x.Args[0], y.Args[0]
-		} else {
-			okAvg = false
+	if a.isBin("/") && a.Args[0].isBin("+") {
+		x, y := stripConv(a.Args[0].Args[0]), stripConv(a.Args[0].Args[1])
+		s1, s2 = x, y
+		switch {
+		case a.Args[1].isConst("2"):
+			stM = holds
+		case a.Args[1].Op == "const":
+			stM, whyM = broken, "the kept weight is (share1+share2)/"+a.Args[1].Name+"; the compromise is the mean of the two shares"
 		}
+	} else if a.isBin("+") {
+		stM, whyM = broken, "the kept weight is the sum of the two shares, not their mean"
+		s1, s2 = stripConv(a.Args[0]), stripConv(a.Args[1])
 	}
-	c.check(okAvg, "TERM-COMP", "mean = int((share1+share2)/2)", avg.At.Pos(), "the kept weight is the mean of the two shares", "kept weight is "+short(a.String())+"; want int((float(share1)+float(share2))/2)")
-	if !okAvg {
+	c.judge(stM, "TERM-COMP", "mean = (share1+share2)/2", avg.At.Pos(), "the kept weight is the mean of the two shares", whyM)
+	if s1 == nil || s2 == nil {
 		return
 	}
 	// identify which share is the first table's (contains param[0] weights)
-	if !strings.Contains(s1.String(), "collect("+w0+")") {
+	if !strings.Contains(s1.String(), w0) || (strings.Contains(s1.String(), w1) && !strings.Contains(s2.String(), w1)) {
 		s1, s2 = s2, s1
 	}
-	parseShare := func(s *Term) (wi *Term, total ssa.Value, ok bool) {
-		if s.Op == "conv" && s.Name == "int" && s.Args[0].isBin("*") {
-			m := s.Args[0]
+	parseShare := func(s *Term) (wi *Term, total *Term, scale string, ok bool) {
+		s = stripConv(s)
+		if s.isBin("*") {
 			for k := 0; k < 2; k++ {
-				if m.Args[k].isConst("10000") && m.Args[1-k].isBin("/") {
-					d := m.Args[1-k]
-					if d.Args[0].Op == "conv" && d.Args[1].Op == "conv" {
-						return d.Args[0].Args[0], d.Args[1].Args[0].V, true
+				if s.Args[k].Op == "const" && s.Args[1-k].isBin("/") {
+					d := s.Args[1-k]
+					return stripConv(d.Args[0]), stripConv(d.Args[1]), s.Args[k].Name, true
+				}
+			}
+		}
+		return nil, nil, "", false
+	}
+	w1i, tot1, sc1, ok1 := parseShare(s1)
+	w2i, tot2, sc2, ok2 := parseShare(s2)
+	if !ok1 || !ok2 {
+		c.undecided("TERM-COMP", "share = int(w/total*10000)", avg.At.Pos(), "shares are not int(float(w)/float(total)*scale): "+short(s1.String())+" / "+short(s2.String()))
+		return
+	}
+	if sc1 != sc2 {
+		c.bad("TERM-COMP", "share = int(w/total*10000)", avg.At.Pos(), "the two shares are scaled differently ("+sc1+" vs "+sc2+"): the mean and the symmetric cut-off mix units")
+	} else {
+		c.ok("TERM-COMP", "share = int(w/total*10000)", avg.At.Pos(), "both shares are int(float(w)/float(total)*"+sc1+")")
+	}
+	tripList := "collect(" + t0 + ")"
+	okW1 := w1i.String() == "zip(collect("+w0+"), "+tripList+")" || w1i.String() == "each(collect("+w0+"))" || w1i.String() == w0
+	ad1, okS1 := sumAddend(tb, tot1)
+	st1, why1 := holds, ""
+	switch {
+	case !okW1:
+		st1, why1 = unknown, "first share uses weight "+short(w1i.String())
+		if strings.Contains(w1i.String(), w1) && !strings.Contains(w1i.String(), w0) {
+			st1, why1 = broken, "the first share is computed from the second table's weights"
+		}
+	case !okS1:
+		st1, why1 = unknown, "the first share's total "+short(tot1.String())+" is not a recognised running sum"
+	case ad1.String() != w0:
+		st1, why1 = unknown, "the first share's total sums "+short(ad1.String())
+		if len(opaqueParts(ad1, vocabOf(w0, w1))) == 0 && localDiff(ad1, w0) {
+			st1 = broken
+		}
+	}
+	c.judge(st1, "TERM-COMP", "share1 = w/sum over the same amino acid (table 1)", avg.At.Pos(), "first share divides the codon's weight by the sum of its amino acid's weights in the first table", why1)
+	// second: weights collected under letter== && triplet==, total summed at the same site
+	st2, why2 := unknown, "second share uses weight "+short(w2i.String())
+	var c2 *Cond
+	var w2src *Term
+	switch {
+	case w2i.Op == "zip" && w2i.Args[0].Op == "collect":
+		w2src = w2i.Args[0]
+	case w2i.Op == "each" && w2i.Args[0].Op == "collect":
+		w2src = w2i.Args[0]
+	}
+	if w2src != nil && len(w2src.Args) == 1 && w2src.Args[0].String() == w1 {
+		if ins, ok := w2src.V.(ssa.Instruction); ok {
+			fn := ins.Parent()
+			// the append site's condition in the root's vocabulary
+			for _, site := range topAppendSites(w2src) {
+				if view.has(site.At.Parent()) {
+					c2 = view.cond(site.At.Parent(), site.At.Block())
+				}
+			}
+			_ = fn
+		}
+		letterEq, tripEq := "binop[==]("+l0+", "+l1+")", "binop[==]("+t0+", "+t1+")"
+		switch {
+		case c2 == nil:
+			why2 = "the condition under which second-table weights are collected was not found"
+		case c2.implies(letterEq, false) && c2.implies(tripEq, false):
+			st2 = holds
+		case c2.implies(tripEq, false) && !strings.Contains(c2.String(), "field[Letter]"):
+			st2, why2 = broken, "second-table weights are matched by triplet only, not by amino acid: the shares of table 2 are not taken over the same amino acid"
+		case c2.implies(letterEq, false) && !strings.Contains(c2.String(), "field[Triplet]"):
+			st2, why2 = broken, "second-table weights are matched by amino-acid letter only, not by triplet: every codon of the amino acid is paired with every codon"
+		default:
+			why2 = "second-table weights are collected under " + short(c2.String())
+		}
+	}
+	if st2 == holds {
+		ad2, okS2 := sumAddend(tb, tot2)
+		switch {
+		case !okS2:
+			st2, why2 = unknown, "the second share's total "+short(tot2.String())+" is not a recognised running sum"
+		case ad2.String() != w1:
+			st2, why2 = unknown, "the second share's total sums "+short(ad2.String())
+		}
+	}
+	c.judge(st2, "TERM-COMP", "share2 = matching codon's w/sum (table 2, matched by letter and triplet)", avg.At.Pos(), "second share uses the second table's codon with the same letter and triplet, over the sum of the matched weights", why2)
+	// cut-off: 0 iff share1 < cut or share2 < cut, decided on a grid around the cut
+	cut := "conv[int](binop[*](const[10000], param[2]))"
+	zc := pathCondFromDom(tb, zero.At.Block(), avg.At.Block())
+	ac := pathCondFromDom(tb, avg.At.Block(), zero.At.Block())
+	if wt.Op == "phi" {
+		zc = pathCond(tb, cmp.Blocks[0], zero.At.Block())
+		ac = pathCond(tb, cmp.Blocks[0], avg.At.Block())
+	}
+	stC, whyC := unknown, "the zeroing condition was not found"
+	if zc != nil && ac != nil {
+		stC = holds
+		s1s, s2s := s1.String(), s2.String()
+		for _, a1 := range []float64{4, 5, 6} {
+			for _, a2 := range []float64{4, 5, 6} {
+				env := map[string]float64{s1s: a1, s2s: a2, cut: 5, "conv[int](" + s1s + ")": a1, "conv[int](" + s2s + ")": a2}
+				ev := func(t *Term) (bool, bool) {
+					if isIterCond(t) {
+						return false, false
+					}
+					return sampleAtom(t, env)
+				}
+				zv, zk := evalCond3(zc, ev)
+				av, ak := evalCond3(ac, ev)
+				wantZero := a1 < 5 || a2 < 5
+				switch {
+				case zk && ak && zv == wantZero && av == !wantZero:
+				case (zk && zv != wantZero) || (ak && av == wantZero):
+					rel := func(v float64) string {
+						switch {
+						case v < 5:
+							return "below"
+						case v == 5:
+							return "equal to"
+						}
+						return "above"
+					}
+					stC, whyC = broken, fmt.Sprintf("with share1 %s and share2 %s the cut-off the weight is %s; the property zeroes a codon exactly when a share is strictly below the cut-off", rel(a1), rel(a2), map[bool]string{true: "kept although a share is below it", false: "zeroed although no share is below it"}[wantZero])
+				default:
+					if stC == holds {
+						stC, whyC = unknown, "the zeroing condition "+short(zc.String())+" could not be evaluated on the shares and int(10000*cutOff)"
 					}
 				}
 			}
 		}
-		return nil, nil, false
 	}
-	w1i, tot1, ok1 := parseShare(s1)
-	w2i, tot2, ok2 := parseShare(s2)
-	if !ok1 || !ok2 {
-		c.bad("TERM-COMP", "share = int(w/total*10000)", avg.At.Pos(), "shares are not int(float(w)/float(total)*10000): "+short(s1.String())+" / "+short(s2.String()))
-		return
-	}
-	tripList := "collect(" + t0 + ")"
-	okW1 := w1i.String() == "zip(collect("+w0+"), "+tripList+")" || w1i.String() == "each(collect("+w0+"))"
-	sum1, _, okS1 := sumOf(tb, tot1)
-	c.check(okW1 && okS1 && sum1 == w0, "TERM-COMP", "share1 = w/sum over the same amino acid (table 1)", avg.At.Pos(), "first share divides the codon's weight by the sum of its amino acid's weights in the first table", fmt.Sprintf("first share uses weight %s over total of %s", short(w1i.String()), sum1))
-	// second: weights collected under letter== && triplet==, total summed at the same site
-	okW2 := w2i.Op == "zip" && w2i.Args[1].String() == tripList && w2i.Args[0].Op == "collect" && w2i.Args[0].Args[0].String() == w1
-	var c2 *Cond
-	if okW2 {
-		c2 = pathCond(tb, cmp.Blocks[0], w2i.Args[0].V.(ssa.Instruction).Block())
-		okW2 = c2.implies("binop[==]("+l0+", "+l1+")", false) && c2.implies("binop[==]("+t0+", "+t1+")", false)
-	}
-	sum2, cs2, okS2 := sumOf(tb, tot2)
-	okS2 = okS2 && sum2 == w1 && cs2 != nil && c2 != nil && cs2.String() == c2.String()
-	c.check(okW2 && okS2, "TERM-COMP", "share2 = matching codon's w/sum (table 2, matched by letter and triplet)", avg.At.Pos(), "second share uses the second table's codon with the same letter and triplet, over the sum of exactly those matched weights", fmt.Sprintf("second share: weight %s (matched by letter&&triplet=%v), total of %s (same match=%v)", short(w2i.String()), okW2, sum2, okS2))
-	// cut-off condition
-	cut := "conv[int](binop[*](const[10000], param[2]))"
-	lt1 := "binop[<](" + s1.String() + ", " + cut + ")"
-	lt2 := "binop[<](" + s2.String() + ", " + cut + ")"
-	zc := pathCondFromDom(tb, zero.At.Block(), avg.At.Block())
-	ac := pathCondFromDom(tb, avg.At.Block(), zero.At.Block())
-	wantZ := "(" + lt1 + " || " + lt2 + ")"
-	if lt1 > lt2 {
-		wantZ = "(" + lt2 + " || " + lt1 + ")"
-	}
-	okCut := zc != nil && ac != nil && zc.String() == wantZ && ac.implies(lt1, true) && ac.implies(lt2, true)
-	zs := "?"
-	if zc != nil {
-		zs = zc.String()
-	}
-	c.check(okCut, "TERM-COMP", "0 iff share1<cut or share2<cut, cut=int(10000*cutOff)", zero.At.Pos(), "weight is zeroed exactly when either share is below int(10000*cutOff) (strict), else the mean is kept", "zeroing condition is "+short(zs)+"; want share1 < int(10000*cutOff) || share2 < int(10000*cutOff)")
-
-	// WRITERS
-	for _, f := range []*ssa.Function{add, cmp} {
-		ws := argWriters(f)
-		c.check(len(ws) == 0, "WRITERS", fname(f)+" does not write its arguments", f.Pos(), "no store through memory reachable from a parameter", "stores into argument memory: "+strings.Join(ws, "; "))
-	}
+	c.judge(stC, "TERM-COMP", "0 iff share1<cut or share2<cut, cut=int(10000*cutOff)", zero.At.Pos(), "decided on the 3x3 grid of shares just below / at / above the cut: zero exactly when either share is strictly below int(10000*cutOff), else the mean", whyC)
 }
 
 // pathCondFromDom: condition of block b relative to the nearest common dominator of b and other.
